@@ -13,7 +13,7 @@ from .. import build as B
 PROPERTY = "C14"
 LEVEL = "exploration"
 VARIANTS = ["fast"]
-RULE = ("layouts = all sequences of <=2 (quick) / <=3 (thorough) blocks from 21 block kinds (x LF/CRLF), probe = 9 kinds x 3 column offsets, "
+RULE = ("layouts = all sequences of <=2 (quick) / <=3 (thorough) blocks from 25 block kinds (x LF/CRLF), probe = 9 kinds x 3 column offsets, "
         "probe in the main file or inside an included file; a case = (layout, line ending, probe kind, column); non-trivial = layout has "
         "at least one block; distinct by case")
 ASSUMPTIONS = [
@@ -30,6 +30,11 @@ BLOCKS = {
     "block-comment-1": ["/* c */"],
     "block-comment-2": ["/* c", "   d */"],
     "block-comment-3": ["/* c", " d", " e */"],
+    # lines inside a comment / string that hold nothing, blanks only, or a lone star
+    "block-comment-empty-line": ["/* c", "", " d */"],
+    "block-comment-empty-lines-2": ["/* c", "", "", "*/"],
+    "block-comment-blank-and-star-lines": ["/*", "   ", " *", " */ bc = 1;"],
+    "multiline-string": ['ms = "l1', "", 'l3";'],
     "define": ["#define A 1"],
     "define-2lines": ["#define M(a) a \\", "  + 1"],
     "define-3lines": ["#define N(a) a \\", "  + 1 \\", "  + 2"],
